@@ -1,11 +1,11 @@
 package main
 
 import (
-	"os"
 	"fmt"
 	"go/constant"
 	"go/token"
 	"go/types"
+	"os"
 	"path/filepath"
 	"sort"
 	"strings"
@@ -425,6 +425,9 @@ type guardRow struct {
 	Func      string `json:"func,omitempty"`      // function holding the guarded recursive call
 	Container string `json:"container,omitempty"` // substring of the type or field name of the visited container
 	Release   bool   `json:"release,omitempty"`   // a release (delete/decrement) must follow the recursive call
+	FuncFP    string `json:"func_fp,omitempty"`   // fingerprint of the guard function's body when the row was written
+	Seed      string `json:"seed,omitempty"`      // name-independent fingerprint of the cycle's bodies when the row was written
+	Where     string `json:"where,omitempty"`     // package|in:files#members of the cycle when the row was written (tools/guardwhere.py)
 	// set while a method of the container's own type is judged: the container is
 	// whatever map hangs off this receiver
 	viaRecv *ssa.Parameter
@@ -537,7 +540,9 @@ func runRec(c *Check, rule string, entries []*ssa.Function, only func(*ssa.Funct
 		sort.Strings(names)
 		key := names[0]
 		pos := p.pos(comp[0].Pos())
-		// table row?
+		// table row? by the name of a member, or — when the function a row names no
+		// longer exists anywhere — by where the cycle lives (package, files, number
+		// of top-level members): the cycle renamed as a whole
 		var row *guardRow
 		for i := range guards {
 			for _, n := range names {
@@ -545,6 +550,34 @@ func runRec(c *Check, rule string, entries []*ssa.Function, only func(*ssa.Funct
 					row = &guards[i]
 				}
 			}
+		}
+		where := sccWhere(p, comp)
+		seed := sccSeed(comp)
+		if os.Getenv("VERIF_GUARD_WHERE") != "" && row != nil {
+			fmt.Fprintf(os.Stderr, "GUARDWHERE\t%s\t%s\t%s\n", row.SCC, where, seed)
+		}
+		if row == nil {
+			// the same bodies under other names
+			for i := range guards {
+				if guards[i].Seed != "" && guards[i].Seed == seed && p.FuncByNameExact(guards[i].SCC) == nil {
+					row = &guards[i]
+				}
+			}
+		}
+		whereRow := func() *guardRow {
+			// the cycle of that size in those files, when only one row says so
+			n := 0
+			for i := range guards {
+				if guards[i].Where != "" && guards[i].Where == where {
+					n++
+				}
+			}
+			for i := range guards {
+				if n == 1 && guards[i].Where == where && p.FuncByNameExact(guards[i].SCC) == nil {
+					return &guards[i]
+				}
+			}
+			return nil
 		}
 		if row != nil {
 			checkGuardRow(c, rule, key, pos, comp, in, g, row)
@@ -572,6 +605,10 @@ func runRec(c *Check, rule string, entries []*ssa.Function, only func(*ssa.Funct
 		if bad != "" {
 			if ok, why := autoGuard(comp, in, g, false); ok {
 				c.Okf(rule, key, pos, "recursive descent is guarded: %s", why)
+				continue
+			}
+			if r := whereRow(); r != nil {
+				checkGuardRow(c, rule, key, pos, comp, in, g, r)
 				continue
 			}
 		}
@@ -646,6 +683,17 @@ func checkGuardRow(c *Check, rule, key, pos string, comp []*ssa.Function, in map
 		if fnName(f) == row.Func {
 			gf = f
 		}
+	}
+	if gf == nil && row.FuncFP != "" {
+		// the guard function under another name: the member with the same body
+		for _, f := range comp {
+			if fingerprint(f) == row.FuncFP {
+				gf = f
+			}
+		}
+	}
+	if os.Getenv("VERIF_GUARD_WHERE") != "" && gf != nil {
+		fmt.Fprintf(os.Stderr, "GUARDFUNC\t%s\t%s\n", row.SCC, fingerprint(gf))
 	}
 	if gf == nil {
 		// the function was renamed or split: look for the guard by what it does
@@ -1750,4 +1798,32 @@ func boolResults(hc *ssa.Call, ts *testAndSet) []ssa.Value {
 		}
 	}
 	return out
+}
+
+// sccWhere: where a recursive cycle lives — package of its first top-level
+// member, the files of its top-level members and how many there are.
+func sccWhere(p *Program, comp []*ssa.Function) string {
+	files := map[string]bool{}
+	pkg := ""
+	n := 0
+	var tops []*ssa.Function
+	for _, f := range comp {
+		if f.Parent() == nil {
+			tops = append(tops, f)
+		}
+	}
+	sort.Slice(tops, func(i, j int) bool { return fnName(tops[i]) < fnName(tops[j]) })
+	for _, f := range tops {
+		n++
+		files[filepath.Base(p.fnFile(f))] = true
+		if pkg == "" {
+			pkg = fnPkgPath(f)
+		}
+	}
+	var fl []string
+	for k := range files {
+		fl = append(fl, k)
+	}
+	sort.Strings(fl)
+	return fmt.Sprintf("%s|in:%s#%d", strings.TrimPrefix(pkg, repoMod+"/"), strings.Join(fl, "+"), n)
 }
